@@ -681,16 +681,15 @@ Section Aux.
         split; [intros [?|[?|?]]; lia | intro; lia].
   Qed.
 
-  Lemma auxpow_section_panic_iff_refuted :
-    exists se ia time seal a, auxpow_section (fun _ => []) se ia time seal a = Panic.
+  (* Since fix commit f0c87e08 the AuxPoW section is total: a short auxpow2 is rejected, nothing panics.
+     (Before the fix a Scrypt share with fewer than 32 bytes of auxpow2 made common.Hash(AuxPow2()) panic.) *)
+  Lemma auxpow_section_total_lemma : forall se ia time seal a,
+    auxpow_section H se ia time seal a <> Panic.
   Proof.
-    (* a scrypt share whose auxpow2 is empty: common.Hash(AuxPow2()) panics before any signature or PoW check *)
-    exists false, false, 5, (zeros 32),
-      (mkAux powid_scrypt
-         ([1;0;0;0; 1] ++ zeros 32 ++ [255;255;255;255] ++ [53] ++
-          ([1;7] ++ [44] ++ magic ++ zeros 32 ++ [2;0;0;0;0;0;0;0] ++ [0] ++ [4;1;0;0;0]) ++ [255;255;255;255])
-         9 [] [] [] false).
-    vm_compute. reflexivity.
+    intros se ia time seal a. unfold auxpow_section.
+    repeat match goal with
+    | |- context [match ?x with _ => _ end] => destruct x
+    end; discriminate.
   Qed.
 
   Lemma verify_header_accept : forall i, verify_header_c08 H i = Accept ->
